@@ -17,7 +17,8 @@ RULE = ("seeded simulation runs: run i<%d sweeps every root type / command code 
 REAL = common.REAL_DECODER
 ASSUMPTIONS = ["reference model + pinned layout snapshot (layout/tpm20_layout.json, extracted once from f0740e3) are "
                "the definition of 'what the layout tables dictate'",
-               "generator self-check: serialised tree items == reference decode items on every run"]
+               "generator self-check: serialised tree items == reference decode items on every run",
+               "pinned text forms (layout/tpm20_textforms.json) of valid values; attribute words and response codes are not pinned"]
 TIERS = {"quick": {"runs": 40000, "budget": 75}, "thorough": {"runs": 600000, "budget": 780}}
 
 
@@ -67,6 +68,25 @@ def check(case):
         clause = "C01.b"
         res.v(clause, "%s:%s:%s" % (clause, field, _tname(d[2], d[1])),
               "%s: %s" % (label, common.show_diff(t.items, exp)))
+    else:
+        # C01.f: the interpretation includes *which* named member / range element a value is: the text form of every
+        # valid value equals the pinned one (member name; range name + zero-padded hex offset; decimal integers)
+        from ..layout import layout
+        L = layout()
+        n_text = 0
+        for e, it in zip(t.events, t.items):
+            if it[0] != "P":
+                continue
+            want = L.text(it[2], it[3])
+            if want is None:
+                continue
+            n_text += 1
+            got = "{}".format(e.value)
+            if got != want:
+                res.v("C01.f", "C01.f:text:%s" % it[2], "%s: %s %s = %d renders as %r, the layout tables name it %r" % (
+                    label, it[2], it[1], it[3], got, want))
+                break
+        res.count("text-forms-compared", n_text)
     res.nontrivial(s["type"], s.get("cc"), s.get("enc"), s["data"])
     return res
 
